@@ -94,7 +94,21 @@ def run_case(case):
       view = ds.batch(cds.BatchHParams(batch_size=bs, drop_remainder=drop))
     else:
       view = ds.batch(batch_size=bs, drop_remainder=drop)
+  # a view whose very FIRST iteration is abandoned after one batch, then iterated fully several times
+  if mode == 'padded':
+    view_b = ds.padded_batch(batch_size=bs, num_batch_size_buckets=buckets)
+  else:
+    view_b = ds.batch(batch_size=bs, drop_remainder=(mode == 'plain_drop'))
+  itb = iter(view_b)
+  next(itb, None)
+  del itb
+  passes_b = [list(view_b) for _ in range(3)]
   first = list(view)
+  for pno, pb in enumerate(passes_b):
+    require(len(pb) == len(first) and all(set(a) == set(b2) and all(same(np.asarray(a[k]), np.asarray(b2[k])) for k in a)
+                                          for a, b2 in zip(pb, first)),
+            'full pass %d of a view whose first iteration was abandoned differs from a fresh view' % (pno + 1),
+            len(first), len(pb))
   # histories on ONE view object: an abandoned iteration, two interleaved iterators, then a full iteration again
   it = iter(view)
   next(it, None)
